@@ -26,6 +26,31 @@ CLAIMED["C09"] = dict(
    note="Trusted: Lean kernel; binary searches are modelled by linear searches on sorted lists; strings.Fields is modelled by byte patterns of the Unicode white-space runes; the print/parse theorem is for fields free of ASCII white space, ':' ',' and the lead bytes 0xC2/0xE1/0xE2/0xE3 (a subset of the property's clean fields).",
    technique="Lean 4 proof (set-algebra refinement of the scope representation) + exhaustive small-universe differential",
    design="§5 C09")
+CLAIMED["C01"] = dict(
+   text="Lean 4 theorems over the executable state-machine model of ocimem (any hash H, no collision assumption): the digest invariant (every stored blob/manifest hashes to its key) holds in every reachable state; a successful read returns exactly the stored bytes with desc.digest = requested digest and desc.size = length; a range read returns exactly the slice while describing the whole blob; a push whose digest or size disagrees is refused with the state unchanged; a commit with a wrong digest stores nothing; frame theorems give 'the bytes served are the last bytes accepted under that digest' step by step. Correspondence: generated histories on the real ocimem diffed line by line with the model (Lean-side SHA-256 checked against crypto/sha256 on every content) plus a Go reference tracker. Wire stacks and wrappers inherit integrity through C03/C04 (differential against direct ocimem).",
+   note="Trusted: Lean kernel; the JSON decoder and the hash are parameters; HTTP-level corruption detection (client blobReader) is exercised by C18's fault stream rather than modelled here; slice aliasing in ocimem (Commit stores b.buf itself) is invisible in an immutable model and is covered only by the differential runs.",
+   technique="Lean 4 proof (inductive digest invariant + frame theorems over the ocimem state machine) + differential histories",
+   design="§5 C01")
+CLAIMED["C02"] = dict(
+   text="Lean 4 theorems over the ocimem state-machine model: key-uniqueness invariant; listings are exactly the keys strictly after the start point, each once, strictly ascending; referrers are exactly the stored manifests whose subject is the digest, sorted; a tag resolves to the last manifest pushed under it; a manifest is accepted only if it decodes, every referenced blob/manifest is present (a subject may dangle) and descriptors are sane; the error-code table (NAME_UNKNOWN / BLOB_UNKNOWN / MANIFEST_UNKNOWN / NAME_INVALID / RANGE_INVALID / DIGEST_INVALID / SIZE_INVALID). Correspondence: random histories over all 18 methods + BlobWriter methods in both configurations, small and large universes, diffed with the model; a reference tracker in Go states the property's clauses directly (found until deleted, tag resolves last push, referrers exact, listing complete/sorted, accepted-only-if-present).",
+   note="Trusted: Lean kernel; json.Unmarshal into the ocispec types is a parameter (performed by the harness, handed to the model as the decoded reference list); repositories without content may answer NAME_UNKNOWN or empty, as the property allows.",
+   technique="Lean 4 proof (invariants and characterisation theorems over the ocimem state machine) + differential histories with a reference tracker",
+   design="§5 C02")
+CLAIMED["C03"] = dict(
+   text="Lean 4 theorems about the request codec shared by client and server: construct_parse (for all 17 request kinds and every valid repository/tag/digest, including names containing the routing words, the server classifies exactly the request the client constructed), parse_sound, exact method tables, base64url round trip proved for the concrete codec. Correspondence: generated histories of Interface calls run on ocimem directly (diffed with the Lean Mem model) and through client/server stacks (1-2 hops, four server option bits, with/without ocidebug, several client page sizes, manifests on both sides of the 128 KiB threshold), the two traces compared under the property's equivalence (outcome, OCI code — status class for HEAD —, digest, size, media type, bytes).",
+   note="Trusted: Lean kernel; net/http, net/url escaping and encoding/json; the transparency of the whole stack is established by differential execution, the proved part is the routing/codec core. Known finding F3 (empty ranges cannot be expressed over HTTP) is reported as KNOWN-FINDING.",
+   technique="Lean 4 proof (construct/parse round trip of the request codec) + differential traces direct vs. HTTP stack",
+   design="§5 C03")
+CLAIMED["C06"] = dict(
+   text="Lean 4 theorems: the request classifier is total and sound (every name handed to a handler is a syntactically valid repository/tag/digest — server_args_valid), exact method tables per path family, the Content-Range codec (which ranges survive, how Content-Length disambiguates 0-0), error status = table[code] else own else 500. Correspondence: grammar-directed and unstructured raw requests (methods, paths with empty segments/reserved words/over-long names, queries, Range/Content-Range/Content-Length/Content-Type values, bodies) served in-process by ociserver over a validating/recording backend, a failing backend and ocimem; the classifier is diffed with the model through the ociverif hook; oracles: no panic, JSON error shape and status/code agreement, mandated success headers, only valid names reach the backend, every reader/writer obtained is closed.",
+   note="Trusted: Lean kernel; net/http request parsing and response framing (requests net/http itself rejects never reach the handler and are skipped); handler bodies beyond the classifier are validated by the recording backend, not modelled.",
+   technique="Lean 4 proof (classifier soundness, range codec) + raw-request differential and oracles against ociserver",
+   design="§5 C06")
+CLAIMED["C14"] = dict(
+   text="Lean 4 theorems over the ocimem model in immutable-tags mode, for every history and any hash: a tag keeps its descriptor forever; the tagged manifest keeps its bytes and media type (under no-second-preimage for the bytes); refersTo with its fuel bound is exactly reachability from the tags in every state; deleting anything reachable from a tag is refused and — for all histories — everything once reachable stays stored and reachable; re-storing tagged content under another media type is refused (F19, found by this proof attempt). Correspondence: random and directed immutable-tags histories (tag chains through images, nested indexes, wrong-media-type index entries, re-typing) diffed with the model, with a monotone 'once protected, always retrievable' oracle. The read-only and immutable wrappers are checked by the C14W engine (see DESIGN).",
+   note="Trusted: Lean kernel; history theorems assume the manifest decoder is a function of (bytes, media type) and no hash collision among pushed manifest bytes (explicit hypotheses); concurrency of the mode rests on C08's single-critical-section fact.",
+   technique="Lean 4 proof (tag stability and reachability retention for all histories) + directed/random differential histories",
+   design="§5 C14")
 NOT_YET = {}
 
 def main():
